@@ -103,7 +103,7 @@ func (s *problemSink) add(node, key, format string, a ...any) {
 	s.mu.Lock()
 	defer s.mu.Unlock()
 	if len(s.list) < 50 {
-		s.list = append(s.list, Problem{Key: key, What: fmt.Sprintf(format, a...), At: time.Now(), Node: node})
+		s.list = append(s.list, Problem{Key: key, What: "[" + node + " @" + time.Now().Format("15:04:05.000") + "] " + fmt.Sprintf(format, a...), At: time.Now(), Node: node})
 	}
 }
 
@@ -222,7 +222,7 @@ func (e *EventMon) compare(where string, replayed, actual map[string]memberInfo)
 			continue
 		}
 		if r.Meta != a.Meta {
-			e.node.sink.add(e.node.Name, "C07/replay/meta", "%s: %s meta in Members()=%q, last event carried %q", where, name, a.Meta, r.Meta)
+			e.node.sink.add(e.node.Name, "C07/replay/meta", "%s: %s meta in Members()=%q, last event carried %q; events about it: %v", where, name, a.Meta, r.Meta, e.History(name))
 		}
 		if r.Addr != a.Addr || r.Port != a.Port {
 			e.node.sink.add(e.node.Name, "C07/replay/addr", "%s: %s address in Members()=%s:%d, last event carried %s:%d", where, name, a.Addr, a.Port, r.Addr, r.Port)
@@ -233,6 +233,17 @@ func (e *EventMon) compare(where string, replayed, actual map[string]memberInfo)
 			e.node.sink.add(e.node.Name, "C07/replay/gone-without-leave", "%s: event replay lists %s but Members() does not (no leave event)", where, name)
 		}
 	}
+}
+
+// History returns the recorded events about one member (compact form).
+func (e *EventMon) History(name string) []string {
+	e.mu.Lock()
+	defer e.mu.Unlock()
+	var out []string
+	for _, r := range e.perName[name] {
+		out = append(out, fmt.Sprintf("%s@%s(%s)", r.Kind, r.At.Format("04:05.000"), r.Meta))
+	}
+	return out
 }
 
 func (e *EventMon) NotifyJoin(n *memberlist.Node)   { e.handle("join", n) }
